@@ -24,6 +24,7 @@ import numpy as np
 
 HOME = os.environ.get('PVMON_HOME', os.path.dirname(os.path.dirname(os.path.abspath(__file__))))
 REPO = os.path.realpath(os.environ.get('PVMON_REPO', '/repo'))
+OUT = os.environ.get('PVMON_OUT', HOME)     # evidence/ and replays/ go here (selftests redirect it)
 
 
 class HarnessError(Exception):
@@ -172,7 +173,7 @@ class Ctx(object):
         print('  mechanism=%s :: %s' % (mech, msg), flush=True)
 
     def write_replay(self, mech, msg, case, detail):
-        d = os.path.join(HOME, 'replays')
+        d = os.path.join(OUT, 'replays')
         os.makedirs(d, exist_ok=True)
         name = '%s-%s-%s.json' % (self.pid, ''.join(c if c.isalnum() else '_' for c in mech)[:48],
                                   digest([mech, case])[:8])
@@ -324,7 +325,7 @@ def write_evidence(module, tier, seed, merged, wall, inconclusive, extra=None):
         'coverage': cov, 'assumptions': list(module.ASSUMPTIONS), 'wall_s': round(wall, 2),
         'violations': sum(1 for _ in merged['violations']),
     }
-    d = os.path.join(HOME, 'evidence')
+    d = os.path.join(OUT, 'evidence')
     os.makedirs(d, exist_ok=True)
     path = os.path.join(d, module.PID + '.json')
     tmp = path + '.tmp%d' % os.getpid()
